@@ -81,7 +81,7 @@ def gen(rng, idx, tier):
         step = rng.uniform(0.0, 0.1) if mode != "long" else rng.uniform(0, 60)
         t += step
         e["at"] = round(t, 6)
-    names = [n for n in {_names.get(c) for _, c in ident.values()} if n]
+    names = sorted(n for n in {_names.get(c) for _, c in ident.values()} if n)
     listeners = []
     for _ in range(rng.randrange(3, 6)):
         cfg = {"build_network_map": rng.random() < 0.5}
